@@ -4,6 +4,7 @@ import (
 	"bytes"
 	"fmt"
 	"os"
+	"path"
 	"regexp"
 	"strconv"
 	"strings"
@@ -718,7 +719,7 @@ func macroIncludeFile(exp Exporter) {
 			return
 		}
 		for _, f := range ctx.incFiles {
-			if f == filename {
+			if f == path.Clean(filename) {
 				// a file that (directly or not) includes itself
 				if ctx.Process {
 					ctx.Errorf("%s: recursive inclusion", filename)
